@@ -14,7 +14,7 @@ CHECKS = {
    note="Expected results are computed by the reference model's value rendering and the stated contracts; argument values outside the alphabets are not covered.",
    technique="exhaustive enumeration of finite argument and input-history alphabets against the stated contracts"),
  "C16": dict(level="model_checking", design="DESIGN.md §4 C16",
-   text="(a) Explicit-state search over every sequence of up to 4 (5) script lines from a 21-line alphabet (block openers/closers/else, array literals and strings split over lines, strings and comments containing every delimiter, escaped quotes and backslashes, blank lines) fed to the real read-eval loop through the real file reader (with and without final newline) and a REPL-style line reader with a recording parser; the inputs handed to the parser must equal, token for token, the statements a lexer-aware splitter finds. (b) Every script of up to 2 (3) statements from a 43-statement alphabet (including lines holding two statements) run through the built binary in -eval (single statements), piped-REPL and file mode; each mode's output must equal what in-process statement-by-statement execution predicts.",
+   text="(a) Explicit-state search over every sequence of up to 4 (5) script lines from a 22-line alphabet (block openers/closers/else, array literals and strings split over lines, strings and comments containing every delimiter, escaped quotes and backslashes, blank lines) fed to the real read-eval loop through the real file reader (with and without final newline) and a REPL-style line reader with a recording parser; the inputs handed to the parser must equal, token for token, the statements a lexer-aware splitter finds. (b) Every script of up to 2 (3) statements from a 43-statement alphabet (including lines holding two statements) run through the built binary in -eval (single statements), piped-REPL and file mode; each mode's output must equal what in-process statement-by-statement execution predicts.",
    note="The splitter model and the in-process expected output are harness side; ill-formed line sequences are skipped and counted; runtime error reports are compared on their first line.",
    technique="explicit-state exploration of line sequences on the real read-eval loop against a splitter model + exhaustive script x run-mode enumeration on the built binary"),
  "C18": dict(level="model_checking", design="DESIGN.md §4 C18",
@@ -30,7 +30,7 @@ CHECKS = {
    note="Trusts the reference model's scoping rules (own, one-level captured, global); programs whose reads are ambiguous between the lexical and the dynamic reading (D-use-before-def) are skipped and counted.",
    technique="exhaustive enumeration of a finite product of scope skeletons with tagged writes against an executable reference model"),
  "C08": dict(level="model_checking", design="DESIGN.md §4 C08",
-   text="Explicit-state search over session histories: every sequence of up to 3 (4) statements from an alphabet of 33 (good statements; lexer, parser and unbalanced-input errors; every runtime error class at top level, at depth, in loop bodies, in suspended and nested generators, in a zip, in closures, with partial global effects; a top-level return out of nested loops) is replayed on a fresh real VM and followed by 14 observers; each statement is compared with the reference model, the machine must be at rest after every statement (hooks), and the observers must answer exactly as in the failure-free twin session holding the same globals.",
+   text="Explicit-state search over session histories: every sequence of up to 3 (4) statements from an alphabet of 34 (good statements; lexer, parser and unbalanced-input errors; every runtime error class at top level, at depth, in loop bodies, in suspended and nested generators, in a zip, in closures, with partial global effects; a top-level return out of nested loops) is replayed on a fresh real VM and followed by 14 observers; each statement is compared with the reference model, the machine must be at rest after every statement (hooks), and the observers must answer exactly as in the failure-free twin session holding the same globals.",
    note="States (reference global store + machine state) are reported for coverage; every history is executed in full on the real VM (traces_validated_against_impl = histories). Longer histories and other failing statements are not covered.",
    technique="explicit-state exploration of statement histories on the real session object with a reference model, hook invariants and a differential failure-free twin"),
  "C10": dict(level="model_checking", design="DESIGN.md §4 C10",
